@@ -117,6 +117,11 @@ MUTANTS = [
     m('C09', 'supplied_total_overridden_when_small', (INF, "        if total is None:\n            # find the minimum variance estimate", "        if total is None or total < 2:\n            # find the minimum variance estimate")),
     m('C09', 'public_total_not_applied', (PI, "    logP = np.log(x0+np.nextafter(0,1)) + np.log(total) - np.log(x0.sum())", "    logP = np.log(x0+np.nextafter(0,1)) - np.log(x0.sum())")),
     m('C09', 'variance_uses_sd', (LI, "                    variances = np.append(variances, noise**2 * np.dot(v, v))", "                    variances = np.append(variances, noise * np.dot(v, v))")),
+    # ---- C03 ------------------------------------------------------------
+    m('C03', 'grad_noise_once', (INF, "                    loss += 0.5*(diff @ diff)\n                    grad = c*(Q.T @ diff)", "                    loss += 0.5*(diff @ diff)\n                    grad = (Q.T @ diff)")),
+    m('C03', 'grouping_drops_repeated_proj', (INF, "                if set(proj) <= set(cl):\n                    self.groups[cl].append(m)\n                    break", "                if set(proj) <= set(cl):\n                    self.groups[cl] = [g for g in self.groups[cl] if g[3] != proj] + [m]\n                    break")),
+    m('C03', 'armijo_inverted', (INF, "                if nols or curr_loss - ans[0] >= 0.5*alpha*dL.dot(nu-mu):", "                if nols or curr_loss - ans[0] <= 0.5*alpha*dL.dot(nu-mu):")),
+    m('C03', 'ig_average_weights_swapped', (INF, "            x = (1-a)*x + a*z\n            if callback is not None:", "            x = a*x + (1-a)*z\n            if callback is not None:")),
 ]
 
 
